@@ -1,0 +1,44 @@
+//! Verification hooks.  Only compiled with `--cfg resolved_verif`; with the
+//! flag off this module does not exist and nothing refers to it.
+
+/// A settable clock: `Instant::now()` is a fixed base instant plus an offset
+/// the test harness controls.  The value returned is an ordinary
+/// `std::time::Instant`.
+pub mod clock {
+    use std::sync::atomic::{AtomicU64, Ordering};
+    use std::sync::OnceLock;
+    use std::time::Duration;
+
+    static OFFSET_NS: AtomicU64 = AtomicU64::new(0);
+    static BASE: OnceLock<std::time::Instant> = OnceLock::new();
+
+    pub struct Instant;
+
+    impl Instant {
+        #[allow(clippy::new_ret_no_self)]
+        pub fn now() -> std::time::Instant {
+            base() + Duration::from_nanos(OFFSET_NS.load(Ordering::SeqCst))
+        }
+    }
+
+    pub fn base() -> std::time::Instant {
+        *BASE.get_or_init(std::time::Instant::now)
+    }
+
+    pub fn set_ns(ns: u64) {
+        OFFSET_NS.store(ns, Ordering::SeqCst);
+    }
+
+    pub fn advance_ns(ns: u64) {
+        OFFSET_NS.fetch_add(ns, Ordering::SeqCst);
+    }
+
+    pub fn now_ns() -> u64 {
+        OFFSET_NS.load(Ordering::SeqCst)
+    }
+
+    /// Nanoseconds of `t` since the base instant.
+    pub fn ns_of(t: std::time::Instant) -> u128 {
+        t.saturating_duration_since(base()).as_nanos()
+    }
+}
